@@ -4,7 +4,10 @@ use std::time::Duration;
 use async_trait::async_trait;
 use log::info;
 use tokio::sync::mpsc::Sender;
+#[cfg(not(saito_verif))]
 use tokio::sync::RwLock;
+#[cfg(saito_verif)]
+use crate::core::util::verif::RwLock;
 
 use crate::core::consensus::golden_ticket::GoldenTicket;
 use crate::core::consensus::wallet::Wallet;
